@@ -58,3 +58,32 @@ class NObj(VObj):
 
     def __getnewargs__(self):
         return (self.tag,)
+
+
+class Tag:
+    """a plain value object that the class part and the state of an NMObj record share"""
+
+    def __init__(self, name):
+        self.name = name
+
+
+class NMObj(MObj):
+    """Resolving class with constructor arguments: the record's class part is (class, args) and the state refers
+    back to an object first pickled in the class part (shared pickle memo)."""
+
+    def __new__(cls, tag=None):
+        return persistent.Persistent.__new__(cls)
+
+    def __init__(self, tag=None, v=None, refs=()):
+        MObj.__init__(self, v, refs)
+        self.tag = tag
+
+    def __getnewargs__(self):
+        return (self.tag,)
+
+    def _p_resolveConflict(self, old, committed, new):
+        out = MObj._p_resolveConflict(self, old, committed, new)
+        # the shared objects of all three states, as the resolver saw them
+        out['tags'] = [old.get('tag'), committed.get('tag'), new.get('tag')]
+        out['tag'] = Tag(repr(out['v']))      # every stored state carries the Tag of its own value
+        return out
